@@ -67,6 +67,14 @@ def final_assertions(ids, which, objs):
         y.sub_org_of.append(z)
         x.sub_org_of.append(y)
         return [x, y, z], {(0, "sub_org_of", 1), (1, "sub_org_of", 2), (0, "sub_org_of", 2)}, lambda: all(any(o is t for o in x.sub_org_of) for t in (y, z)) and [index_of([x, y, z], o) for o in y.sub_org_of] == [2]
+    if which == "new-boss-heads-new-org":
+        # a role (Boss) of a new human is related to a new org: the inference reaches the role taker
+        p_ = W.create(ids, W.Human, name=1)
+        o = W.create(ids, W.Org, name=2)
+        b = W.create(ids, W.Boss, person=p_)
+        b.head_of = o
+        return ([p_, o, b], {(2, "head_of", 1), (0, "works_for", 1), (0, "member_of", 1), (1, "members", 2), (1, "members", 0)},
+                lambda: b.head_of is o and p_.works_for is o and any(x is o for x in p_.member_of) and any(x is b for x in o.members))
     raise ValueError(which)
 
 
@@ -104,6 +112,16 @@ def history_case(L, first_ops, which):
                         W.drop(ids, objs, i)
                     gc.collect()
                     list(an(entity(let(W.Org, None))).evaluate())
+                elif op[0] == "role":  # macro: a role of a human heads an org; all three are let go, collected and swept
+                    hh, oo = W.create(ids, W.Human, name=len(objs)), W.create(ids, W.Org, name=len(objs) + 1)
+                    bb = W.create(ids, W.Boss, person=hh)
+                    objs.extend([hh, oo, bb])
+                    bb.head_of = oo
+                    del hh, oo, bb
+                    for i in (len(objs) - 1, len(objs) - 2, len(objs) - 3):
+                        W.drop(ids, objs, i)
+                    gc.collect()
+                    list(an(entity(let(W.Org, None))).evaluate())
                 elif op[0] == "retarget":  # macro: a source outlives its target: h works for o1, then for o2; o1 is let go and swept
                     hh, o1, o2 = W.create(ids, W.Human, name=len(objs)), W.create(ids, W.Org, name=len(objs) + 1), W.create(ids, W.Org, name=len(objs) + 2)
                     objs.extend([hh, o1, o2])
@@ -133,7 +151,7 @@ def history_case(L, first_ops, which):
                     orgs = [i for i, o in enumerate(objs) if isinstance(o, W.Org)]
                     live = [i for i, o in enumerate(objs) if o is not None]
                     opts = [("create", "Org"), ("create", "Human")] + [("works_for", a, b) for a in humans for b in orgs] + [("sub_org", a, b) for a in orgs for b in orgs if a != b] + [("drop", i) for i in live] + [("collect",), ("sweep",), ("pair",), ("chain",), ("purge",)]
-                    if s < len(first_ops) and first_ops[s][0] in ("retarget", "retarget-sub"):
+                    if s < len(first_ops) and first_ops[s][0] in ("retarget", "retarget-sub", "role"):
                         opts.append(first_ops[s])  # (only as a forced first operation)
                     if s < len(first_ops):
                         op = first_ops[s]
@@ -191,8 +209,8 @@ def cases(tier, seed):
         for f in firsts:
             nm = "prefix|first=%s|then %s" % ("+".join(":".join(map(str, o)) for o in f), which)
             cs.append(Case(nm + "|L=%d" % L, history_case(L, f, which), key=nm, reset=W.world_reset, validate=0, timeout=900 if tier == "quick" else 3000, max_paths=400000))
-    for f, which in [([("retarget",)], "existing-human-works-for-new-org"), ([("retarget-sub",)], "existing-org-sub-org-of-new-chain"), ([("pair",)], "existing-human-works-for-new-org"), ([("chain",)], "existing-org-sub-org-of-new-chain")]:
-        nm = "prefix|first=%s|then %s" % (f[0][0], which)
+    for f, which in [([("retarget",)], "existing-human-works-for-new-org"), ([("retarget-sub",)], "existing-org-sub-org-of-new-chain"), ([("pair",)], "existing-human-works-for-new-org"), ([("chain",)], "existing-org-sub-org-of-new-chain"), ([("role",)], "new-boss-heads-new-org"), ([("create", "Org")], "new-boss-heads-new-org")]:
+        nm = "prefix|first=%s|then %s" % (":".join(map(str, f[0])), which)
         cs.append(Case(nm + "|L=%d" % L, history_case(L, f, which), key=nm, reset=W.world_reset, validate=0, timeout=900 if tier == "quick" else 3000, max_paths=400000))
     return cs
 
@@ -202,7 +220,7 @@ def describe(tier):
     return dict(
         rule="a prefix history of %d operations (bounded symbolic choices among create Org / Human, h.works_for = o, o.sub_org_of.append(o2), drop reference i, gc.collect(), "
         "a sweeping query, and the macro operations 'related pair', 'transitive chain', 'drop everything + collect + sweep') on the real SymbolGraph with a nondeterministic id() allocator (ids and graph slots of dead instances are re-used in every possible way), "
-        "followed by an assertion sequence on new instances (works_for on new / existing org, a transitive chain, members.add); also prefixes in which a source outlives its target (the field is re-assigned, the old target is dropped and swept) followed by relating the surviving source to a new instance; the relations among the final instances, "
+        "followed by an assertion sequence on new instances (works_for on new / existing org, a transitive chain, members.add); a role (Boss) related to an org after an earlier role lived and died; also prefixes in which a source outlives its target (the field is re-assigned, the old target is dropped and swept) followed by relating the surviving source to a new instance; the relations among the final instances, "
         "the field values and the number of graph nodes per instance must be what the same assertions give on a fresh graph. non-trivial = every path reaches the assertion" % L,
         bounds=dict(prefix_length=L, classes="Org, Human with Member/MemberOf/WorksFor/SubOrgOf descriptors", ids="every reuse pattern"),
         outside=["prefixes longer than %d" % L, "role-taker (Boss) assertions (covered by C15)", "threads"],
